@@ -9,6 +9,8 @@
 //   R:r:<c|g|h>:<style>:<namehex>:<knhex>=<vhex>,<knhex>=<vhex>...      (handle number = order of R on r)
 //   U:r:<handle>:<ci|ca|gs|gi|gd|hr>:<integer>
 //   S:r:<where>            where = m (snapshot taken on the main thread) | w (on the worker thread)
+//   STRESS <recorder threads 1..> <histograms 1..> <values per thread> <paced snapshots>
+//            free-running stress round (real threads, no scheduler), see fn stress
 // stdout: one line per case: `ok` followed by one token per snapshot
 //   S<r>[<entry>|<entry>...]   entry = <c|g|h>,<namehex>,<knhex>=<vhex>;...,<unit idx|->,<deschex|->,<value>
 //   value = c<u64> | g<i64> | h<i64>/<i64>/...     (the order in which into_vec() / clear_with gave them)
@@ -229,6 +231,112 @@ fn run_case(line: &str) -> String {
     out.join(" ")
 }
 
+// Free-running stress round.  One DebuggingRecorder; `threads` recorder threads (each with the
+// recorder installed locally) obtain their handles once and then record the distinct values
+// t*2^32 + i (integer-valued f64 < 2^53) round-robin into `hists` histograms, bump a shared counter
+// by 1 per record and a shared gauge by 1.0 every 16th record, while the main thread takes `snaps`
+// snapshots paced over the recording (the k-th when about k/(snaps+1) of all values were recorded).
+// After the join, final snapshots are taken until the histograms stay empty.  Reported: how often
+// each value was shown (lost = never, dups = more than once, within or across snapshots), values
+// never recorded / shown under the wrong histogram, number of snapshots begun while a recorder thread was
+// still running, and the final counter / gauge entries.  The verdict is python's (vlib/c19.py).
+fn stress(threads: usize, hists: usize, n: usize, snaps: usize) -> String {
+    use std::sync::atomic::{AtomicU64, AtomicUsize, Ordering};
+    static META: Metadata<'static> = Metadata::new("c19-stress", Level::INFO, None);
+    let t0 = std::time::Instant::now();
+    let rec = DebuggingRecorder::new();
+    let snapper = rec.snapshotter();
+    let progress: Vec<AtomicU64> = (0..threads).map(|_| AtomicU64::new(0)).collect();
+    let done = AtomicUsize::new(0);
+    let barrier = std::sync::Barrier::new(threads + 1);
+    let hkey = |j: usize| Key::from_parts("stress_h", vec![Label::new("j", j.to_string())]);
+    let mut counts: Vec<Vec<u8>> = vec![vec![0u8; n]; threads];
+    let (mut dups, mut invented, mut drains_during, mut paced, mut shown) = (0u64, 0u64, 0u64, 0u64, 0u64);
+    let mut final_counter: Option<u64> = None;
+    let mut final_gauge: Option<f64> = None;
+    let mut absorb = |snap: Vec<(metrics_util::CompositeKey, Option<Unit>, Option<SharedString>, DebugValue)>,
+                      counts: &mut Vec<Vec<u8>>| -> u64 {
+        let mut got = 0u64;
+        for (ck, _, _, value) in snap {
+            match value {
+                DebugValue::Counter(c) => final_counter = Some(c),
+                DebugValue::Gauge(g) => final_gauge = Some(g.into_inner()),
+                DebugValue::Histogram(vs) => {
+                    let j: usize = ck.key().labels().next().map(|l| l.value().parse().unwrap_or(usize::MAX)).unwrap_or(usize::MAX);
+                    for v in vs {
+                        got += 1;
+                        let f = v.into_inner();
+                        if !(f >= 0.0 && f.fract() == 0.0 && f < 9.0e15) { invented += 1; continue; }
+                        let x = f as u64;
+                        let (t, i) = ((x >> 32) as usize, (x & 0xffff_ffff) as usize);
+                        if t >= threads || i >= n || i % hists != j { invented += 1; continue; }
+                        let c = &mut counts[t][i];
+                        if *c >= 1 { dups += 1; }
+                        *c = c.saturating_add(1);
+                    }
+                }
+            }
+        }
+        got
+    };
+    std::thread::scope(|sc| {
+        for t in 0..threads {
+            let (rec, progress, done, barrier, hkey) = (&rec, &progress, &done, &barrier, &hkey);
+            sc.spawn(move || {
+                metrics::with_local_recorder(rec, || {
+                    let hs: Vec<Histogram> = (0..hists).map(|j| metrics::with_recorder(|r| r.register_histogram(&hkey(j), &META))).collect();
+                    let c = metrics::with_recorder(|r| r.register_counter(&Key::from_name("stress_c"), &META));
+                    let g = metrics::with_recorder(|r| r.register_gauge(&Key::from_name("stress_g"), &META));
+                    barrier.wait();
+                    for i in 0..n {
+                        hs[i % hists].record((((t as u64) << 32) + i as u64) as f64);
+                        c.increment(1);
+                        if i % 16 == 0 { g.increment(1.0); }
+                        if i % 256 == 255 { progress[t].store(i as u64 + 1, Ordering::Relaxed); }
+                    }
+                    progress[t].store(n as u64, Ordering::Relaxed);
+                    done.fetch_add(1, Ordering::SeqCst);
+                })
+            });
+        }
+        barrier.wait();
+        let total = (threads * n) as u64;
+        for k in 1..=snaps as u64 {
+            let want = total * k / (snaps as u64 + 1);
+            loop {
+                if done.load(Ordering::SeqCst) == threads { break; }
+                if progress.iter().map(|p| p.load(Ordering::Relaxed)).sum::<u64>() >= want { break; }
+                std::hint::spin_loop();
+            }
+            if done.load(Ordering::SeqCst) == threads { break; }
+            drains_during += 1;
+            paced += 1;
+            shown += absorb(snapper.snapshot().into_vec(), &mut counts);
+        }
+        // one more that may still overlap the tail of the recording
+        if done.load(Ordering::SeqCst) < threads { drains_during += 1; }
+        shown += absorb(snapper.snapshot().into_vec(), &mut counts);
+    });
+    // all recorder threads have finished: drain until nothing is left (a drained histogram must stay empty)
+    let mut final_snaps = 0u64;
+    let mut after_empty = 0u64;
+    loop {
+        final_snaps += 1;
+        let got = absorb(snapper.snapshot().into_vec(), &mut counts);
+        shown += got;
+        if got == 0 { break; }
+        if final_snaps >= 6 { after_empty = got; break; }
+    }
+    let lost: u64 = counts.iter().map(|c| c.iter().filter(|x| **x == 0).count() as u64).sum();
+    let gauge_expect = (threads * ((n + 15) / 16)) as f64;
+    format!(
+        "stress threads={} hists={} recorded={} shown={} lost={} dups={} invented={} paced={} drains_during={} final_snaps={} never_empty={} counter={} counter_expect={} gauge={} gauge_expect={} ms={}",
+        threads, hists, threads * n, shown, lost, dups, invented, paced, drains_during, final_snaps, after_empty,
+        final_counter.map(|c| c.to_string()).unwrap_or("-".into()), threads * n,
+        final_gauge.map(|g| g.to_string()).unwrap_or("-".into()), gauge_expect, t0.elapsed().as_millis()
+    )
+}
+
 fn main() {
     std::panic::set_hook(Box::new(|_| {}));
     let stdin = std::io::stdin();
@@ -237,6 +345,12 @@ fn main() {
     for line in stdin.lock().lines() {
         let line = line.unwrap();
         if line.trim().is_empty() { writeln!(w, "ok").unwrap(); continue; }
+        if let Some(rest) = line.strip_prefix("STRESS") {
+            let a: Vec<usize> = rest.split_whitespace().map(|x| x.parse().unwrap()).collect();
+            let r = std::panic::catch_unwind(|| stress(a[0].max(1), a[1].max(1), a[2], a[3]));
+            writeln!(w, "{}", r.unwrap_or_else(|e| format!("stress panic:{}", panic_text(e)))).unwrap();
+            continue;
+        }
         writeln!(w, "{}", run_case(&line)).unwrap();
     }
 }
